@@ -120,3 +120,8 @@ def run(ctx):
     for cc in nm.calls_to('core::str::<impl str>::chars'):
       lits |= set(string_consts(nm, cc.args[0]))
     ctx.ob('R29.3', nm.n, 'alphabet literal is abcdefghijklmnopqrstuvwxyz', 'abcdefghijklmnopqrstuvwxyz' in lits, f'{lits}', where(nm, nm.line))
+
+
+# sensitivity pack (thorough tier): each seeded edit must be reported by the named rule instance
+MUTANTS = [{'name': 'epoch-ladder-off-by-one', 'file': 'crates/ordinals/src/epoch.rs', 'old': '    if sat < Self::STARTING_SATS[1] {\n      Epoch(0)\n    } else if sat < Self::STARTING_SATS[2] {', 'new': '    if sat < Self::STARTING_SATS[1] {\n      Epoch(0)\n    } else if sat < Self::STARTING_SATS[3] {', 'expect': ('R29.2', 'From>::from', 'Epoch(1)')},
+           {'name': 'rarity-supply-wrong', 'file': 'crates/ordinals/src/rarity.rs', 'old': 'Self::Rare => 3_432,', 'new': 'Self::Rare => 3_437,', 'expect': ('R29.1', 'Rarity::supply', 'supply(Rare)')}]
